@@ -225,6 +225,9 @@ func fetchCryptoKeys(b db.Bucket) ([]byte, []byte, error) {
 	// Load the crypto private key parameters if they were stored.
 	var privKey []byte
 	val, err = b.Get(cryptoPrivKeyName)
+	if err != nil {
+		return nil, nil, err
+	}
 	if val != nil {
 		privKey = make([]byte, len(val))
 		copy(privKey, val)
